@@ -91,6 +91,30 @@ class IterTable:
         if get is None:
             # lookup through another shape is not modelled
             raise Unrecognised("iterator has no index -> variant table fn (`get`)")
+        try:
+            self._shape(get)
+        except Unrecognised as e1:
+            self.entries = []
+            try:
+                self._tree(get)
+            except Unrecognised as e2:
+                raise Unrecognised("%s [decision-tree normaliser: %s]" % (e1, e2), getattr(e1, "node", None))
+
+    def _tree(self, get: dict):
+        """index -> variant table of any shape the normaliser understands (T.int_table_tree)."""
+        nparams = len(get["body"]["params"])
+        rows, others = T.int_table_tree(get, nparams - 1, T.group_fns(self.g), lo=0)
+        for k, v in rows:
+            co = H.call_of(v)
+            if co and co[0].get("def") == T.SOME and len(co[1]) == 1 and H.ctor_of(co[1][0]) is not None:
+                self.entries.append((k, H.ctor_of(co[1][0])))
+            elif isinstance(H.strip(v), dict) and H.strip(v).get("k") == "path" and H.strip(v).get("def") == T.NONE:
+                continue
+            else:
+                raise Unrecognised("index table yields something other than Some(variant) / None for %d: %s" % (k, H.brief(v, 80)), v)
+        self.wild_none = all(isinstance(H.strip(v), dict) and H.strip(v).get("k") == "path" and H.strip(v).get("def") == T.NONE for _k, v in others)
+
+    def _shape(self, get: dict):
         stmts, tail = H.tail_of_body(get["body"]["tree"])
         m = H.match_on(tail)
         if m is None or stmts:
@@ -349,6 +373,17 @@ def C08(infos: List[EnumInfo], ctx: dict):
 # C06
 # ------------------------------------------------------------------------------------------------
 
+def int_bounds(ty: str) -> Tuple[Optional[int], Optional[int]]:
+    import re as _re
+    m = _re.match(r"^([iu])(8|16|32|64|128|size)$", ty or "")
+    if not m:
+        return None, None
+    bits = 64 if m.group(2) == "size" else int(m.group(2))
+    if m.group(1) == "u":
+        return 0, (1 << bits) - 1
+    return -(1 << (bits - 1)), (1 << (bits - 1)) - 1
+
+
 class ReprTable:
     def __init__(self, info: EnumInfo, g: DeriveGroup):
         f = None
@@ -358,8 +393,43 @@ class ReprTable:
         if f is None:
             raise Unrecognised("no from_repr fn generated")
         self.fn = f
-        stmts, tail = H.tail_of_body(f["body"]["tree"])
         self.consts: Dict[str, dict] = {}
+        self.rows: List[Tuple[Optional[int], H.Ctor, Any]] = []
+        self.wild_none = False
+        try:
+            self._shape(f)
+        except Unrecognised as e1:
+            self.rows = []
+            try:
+                self._tree(info, g, f)
+            except Unrecognised as e2:
+                raise Unrecognised("%s [decision-tree normaliser: %s]" % (e1, e2), getattr(e1, "node", None))
+
+    def _tree(self, info: EnumInfo, g: DeriveGroup, f: dict):
+        extra = []
+        for v in (info.sem or {}).get("variants", []):
+            try:
+                extra.append(int(v["disc"]))
+            except (KeyError, TypeError, ValueError):
+                pass
+        pty = f["sig"]["inputs"][0]["s"] if f["sig"]["inputs"] else "usize"
+        lo, hi = int_bounds(pty)
+        rows, others = T.int_table_tree(f, 0, T.group_fns(g), extra, lo, hi)
+        is_none = lambda v: isinstance(H.strip(v), dict) and H.strip(v).get("k") == "path" and H.strip(v).get("def") == T.NONE
+        for k, v in rows + others:
+            if is_none(v):
+                continue
+            co = H.call_of(v)
+            c = H.ctor_of(co[1][0]) if (co and co[0].get("def") == T.SOME and len(co[1]) == 1) else None
+            if c is None:
+                raise Unrecognised("from_repr(%d) is neither None nor Some(variant): %s" % (k, H.brief(v, 80)), v)
+            self.rows.append((k, c, {"body": v, "normalised": True}))
+        self.wild_none = all(is_none(v) or any(k == r[0] for r in self.rows) for k, v in others)
+        # a value that is no constant of the function but yields a variant was added to rows above, so C06's
+        # extra-value rule sees it
+
+    def _shape(self, f: dict):
+        stmts, tail = H.tail_of_body(f["body"]["tree"])
         for s in stmts:
             if s.get("k") == "item" and s.get("item") == "const":
                 self.consts[s["name"]] = s
@@ -372,8 +442,6 @@ class ReprTable:
             raise Unrecognised("from_repr is not a match: " + H.brief(tail), tail)
         if not H.is_local(m["scrut"], param=0):
             raise Unrecognised("from_repr does not match on its parameter", m)
-        self.rows: List[Tuple[Optional[int], H.Ctor, Any]] = []
-        self.wild_none = False
         for arm in m["arms"]:
             p = arm["pat"]
             if H.is_wild(p) and arm.get("guard") is None:
@@ -613,7 +681,7 @@ def C09(infos: List[EnumInfo], ctx: dict):
                 out.append(Violation("C09", "From<E> and From<&E> are generated", "C09:conv-missing:%s" % label, "%s not generated" % label, where(info, D)))
                 continue
             try:
-                vm = T.variant_match(fn_of(imp, "from"), 0)
+                vm = T.variant_match(fn_of(imp, "from"), 0, fns=T.group_fns(g))
             except Unrecognised as e:
                 out.append(unrec("C09", info, D, e))
                 continue
@@ -759,7 +827,7 @@ def C10(infos: List[EnumInfo], ctx: dict):
                 if f is None:
                     out.append(Violation("C10", "Index and IndexMut are generated", "C10:missing:%s" % name, "%s not generated" % name, where(info, D)))
                     continue
-                vm = T.variant_match(f, 1)
+                vm = T.variant_match(f, 1, fns=T.group_fns(g))
                 if not vm.scrut_ok:
                     out.append(Violation("C10", "indexing matches on the key", "C10:scrutinee:%s" % name, "%s does not match on its key parameter" % name, where(info, D)))
                 local: Dict[str, str] = {}
@@ -1166,6 +1234,80 @@ def C14(infos: List[EnumInfo], ctx: dict):
 # C15
 # ------------------------------------------------------------------------------------------------
 
+def prop_tables_shape(f: dict, fn: str, ty: str, variants: List[str]) -> Dict[str, Optional[Dict[str, Any]]]:
+    """variant -> {key: value} for a getter of the emitted shape `match self { V => match prop { "k" => Some(x), _ => None } }`."""
+    vm = T.variant_match_shape(f, 0)
+    tables: Dict[str, Optional[Dict[str, Any]]] = {}
+    for vname in variants:
+        r = T.first_arm_for(vm, vname)
+        if r is None:
+            tables[vname] = None
+            continue
+        body = H.strip(r[1])
+        if isinstance(body, dict) and body.get("def") == T.NONE:
+            tables[vname] = {}
+            continue
+        m = H.match_on(body)
+        if m is None or not H.is_local(m["scrut"], param=1):
+            raise Unrecognised("per-variant lookup is not a match on the key parameter: %s arm for %s: %s" % (fn, vname, H.brief(body)), body)
+        got: Dict[str, Any] = {}
+        wild_ok = False
+        bad = False
+        for arm in m["arms"]:
+            if H.is_wild(arm["pat"]) and arm.get("guard") is None:
+                b = H.strip(arm["body"])
+                wild_ok = isinstance(b, dict) and b.get("def") == T.NONE
+                break
+            if arm.get("guard") is not None:
+                bad = True
+                break
+            for alt in H.pat_alternatives(arm["pat"]):
+                key = H.lit_value(alt.get("lit"), "str") if alt.get("k") == "plit" else None
+                o = T.option_str(arm["body"])
+                if key is None or o[0] != "some" or o[2] != ty:
+                    bad = True
+                    break
+                got.setdefault(key, o[1])
+        if bad or not wild_ok:
+            raise Unrecognised("per-variant lookup is not {key literal => Some(literal)} + `_ => None`: %s arm for %s: %s" % (fn, vname, H.brief(body, 240)), body)
+        tables[vname] = got
+    return tables
+
+
+def prop_tables_tree(f: dict, fn: str, ty: str, variants: List[str], keys: List[str], fns) -> Tuple[Dict[str, Dict[str, Any]], List[Tuple[str, str, str]]]:
+    """The same table through the decision-tree normaliser (any shape built from the atoms of symeval): the getter is
+    evaluated for every variant on one string per cell of the partition its string comparisons induce."""
+    import symeval as SE
+    fns2 = dict(fns or {})
+    fns2.pop(f.get("def"), None)
+    b = SE.Builder(f, {0: "self", 1: "str"}, fns2)
+    tree = b.tree()
+    ats = SE.atoms(tree)
+    bad = [a for a in ats if a[0] not in ("var", "seq", "slen")]
+    if bad:
+        raise Unrecognised("%s branches on %r" % (fn, bad[0]))
+    reps = SE.string_reps(ats, keys)
+    tables: Dict[str, Dict[str, Any]] = {}
+    irregular: List[Tuple[str, str, str]] = []
+    for vname in variants:
+        got: Dict[str, Any] = {}
+        for kind, sx in reps:
+            leaf = SE.run(tree, {"variant": vname, "s": sx})
+            if leaf.diverge:
+                raise Unrecognised("%s(%s, %r) does not return: %s" % (fn, vname, sx, leaf.diverge))
+            o = T.option_str(leaf.value)
+            if o[0] == "none":
+                continue
+            if o[0] != "some" or o[2] != ty:
+                raise Unrecognised("%s(%s, %r) is neither None nor Some(literal of type %s): %s" % (fn, vname, sx, ty, H.brief(leaf.value, 80)), leaf.value)
+            if kind == "lit":
+                got[sx] = o[1]
+            else:
+                irregular.append((vname, sx, "Some(%r)" % (o[1],)))
+        tables[vname] = got
+    return tables, irregular
+
+
 def C15(infos: List[EnumInfo], ctx: dict):
     out: List[Violation] = []
     programs = 0
@@ -1199,47 +1341,27 @@ def C15(infos: List[EnumInfo], ctx: dict):
                     out.append(Violation("C15", "getter is generated", "C15:missing:%s" % fn, "%s not generated" % fn, where(info, D)))
                 continue
             try:
-                vm = T.variant_match(f, 0)
+                try:
+                    tables = prop_tables_shape(f, fn, ty, [v.name for v in es.variants])
+                except Unrecognised as e1:
+                    try:
+                        keys = sorted(set(k for v in es.variants for t2 in ("str", "int", "bool") for k in es.props_of(v, t2)))
+                        tables, irregular = prop_tables_tree(f, fn, ty, [v.name for v in es.variants], keys, T.group_fns(g))
+                    except Unrecognised as e2:
+                        raise Unrecognised("%s [decision-tree normaliser: %s]" % (e1, e2), getattr(e1, "node", None))
+                    for vn, sx, what in irregular:
+                        out.append(Violation("C15", "a string that is not a declared key of the variant yields None", "C15:%s:non-key-accepted" % fn,
+                                             "%s(%s, %r) is %s" % (fn, vn, sx, what), where(info, D, {"variant": vn, "input": sx})))
             except Unrecognised as e:
                 out.append(unrec("C15", info, D, e))
                 continue
             for v in es.variants:
                 want = es.props_of(v, ty)
                 classes.add("%s/%s/n=%d/groups=%d/%s" % (ty, v.kind, min(len(want), 3), min(sum(1 for _ in v.props), 3), "disabled" if v.disabled else "en"))
-                r = T.first_arm_for(vm, v.name)
-                got: Optional[Dict[str, Any]] = None
-                if r is None:
+                got = tables.get(v.name)
+                if got is None:
                     out.append(Violation("C15", "lookup covers every variant", "C15:missing-arm", "%s has no arm for %s" % (fn, v.name), where(info, D)))
                     continue
-                body = H.strip(r[1])
-                if isinstance(body, dict) and body.get("def") == T.NONE:
-                    got = {}
-                else:
-                    m = H.match_on(body)
-                    if m is None or not H.is_local(m["scrut"], param=1):
-                        out.append(Violation("C15", "per-variant lookup is a match on the key parameter", "C15:inner-shape", "%s arm for %s: %s" % (fn, v.name, H.brief(body)), where(info, D)))
-                        continue
-                    got = {}
-                    wild_ok = False
-                    bad = False
-                    for arm in m["arms"]:
-                        if H.is_wild(arm["pat"]) and arm.get("guard") is None:
-                            b = H.strip(arm["body"])
-                            wild_ok = isinstance(b, dict) and b.get("def") == T.NONE
-                            break
-                        if arm.get("guard") is not None:
-                            bad = True
-                            break
-                        for alt in H.pat_alternatives(arm["pat"]):
-                            key = H.lit_value(alt.get("lit"), "str") if alt.get("k") == "plit" else None
-                            o = T.option_str(arm["body"])
-                            if key is None or o[0] != "some" or o[2] != ty:
-                                bad = True
-                                break
-                            got.setdefault(key, o[1])
-                    if bad or not wild_ok:
-                        out.append(Violation("C15", "per-variant lookup is {key literal => Some(literal)} + `_ => None`", "C15:inner-shape", "%s arm for %s: %s" % (fn, v.name, H.brief(body, 240)), where(info, D)))
-                        continue
                 rows += 1 + len(want)
                 if got != want:
                     if v.disabled:
